@@ -88,7 +88,8 @@ try:
         meta['confirmed_by_integrator'] = ran
         meta['base_commit'] = subprocess.check_output(['git', '-C', '/repo', 'rev-parse', '--short', 'HEAD'], text=True).strip()
         meta['detected'] = rc2 == 1
-        meta['detected_how'] = how
+        meta['detected_how'] = how[:3]
+        meta['detected_how_total'] = len(how)
         json.dump(meta, open(os.path.join(dst, 'meta.json'), 'w'), indent=1, default=str)
 finally:
     sh('git -C /repo worktree remove --force %s' % wt)
